@@ -7,9 +7,9 @@ from vlib import InfraError, write_ndjson, read_ndjson
 import evalfam
 
 
-def run_cases(ctx, cases_path, tag, repeat):
+def run_cases(ctx, cases_path, tag, repeat, perms=0, prop="C14"):
     rp = os.path.join(ctx.work, "res_%s.ndjson" % tag)
-    ctx.run_vh(["teval", "--in", cases_path, "--out", rp, "--repeat", str(repeat)])
+    ctx.run_vh(["teval", "--in", cases_path, "--out", rp, "--repeat", str(repeat), "--perms", str(perms)])
     val = ctx.validate(rp, module="Trace_TemporalEval")
     results = {r["id"]: r for r in read_ndjson(rp)}
     for r in results.values():
@@ -24,9 +24,9 @@ def run_cases(ctx, cases_path, tag, repeat):
             continue
         seen.add(key)
         cp = os.path.join(ctx.work, "confirm_%d.ndjson" % len(os.listdir(ctx.work)))
-        write_ndjson(cp, [dict(id="confirm", tfacts=r["tfacts"], now=r["now"], rules=r["rules"])])
+        write_ndjson(cp, [dict(id="confirm", tfacts=r["tfacts"], now=r["now"], rules=r["rules"], overlap=r.get("overlap", False))])
         rp2 = cp.replace(".ndjson", ".res.ndjson")
-        ctx.run_vh(["teval", "--in", cp, "--out", rp2, "--repeat", "20"])
+        ctx.run_vh(["teval", "--in", cp, "--out", rp2, "--repeat", "20", "--perms", str(perms)])
         val2 = ctx.validate(rp2, module="Trace_TemporalEval", shards=1)
         ms2 = [x for x in val2["mismatches"] if x["kind"] == m["kind"]]
         if not ms2:
@@ -34,9 +34,15 @@ def run_cases(ctx, cases_path, tag, repeat):
             continue
         r2 = read_ndjson(rp2)[0]
         v = r2["variants"][ms2[0]["variant"]]
-        ctx.violation("%s: now=%d | %s | facts=%s temporal=%s | expected %s" % (
-            m["kind"], r["now"], r["text"].replace("\n", " "), evalfam.facts_str(v["got"]), [(evalfam.fact_str(x[0]), x[1]) for x in v["tgot"]], json.dumps(ms2[0]["expected"])[:400]),
-            dict(property="C14", replay_family="teval", kind=m["kind"], case=dict(id="replay", tfacts=r["tfacts"], now=r["now"], rules=r["rules"]), program_text=r["text"], observed=v, expected=ms2[0]["expected"]))
+        if m["kind"] == "INCONSISTENT":
+            v0 = r2["variants"][0]
+            expected = "the same as under %s: facts=%s temporal=%s" % (v0["cfgs"][:2], evalfam.facts_str(v0["got"]), [(evalfam.fact_str(x[0]), x[1]) for x in v0["tgot"]])
+        else:
+            expected = json.dumps(ms2[0]["expected"])[:400]
+        ctx.violation("%s: now=%d | %s | under %s facts=%s temporal=%s | expected %s" % (
+            m["kind"], r["now"], r["text"].replace("\n", " "), v["cfgs"][:2], evalfam.facts_str(v["got"]), [(evalfam.fact_str(x[0]), x[1]) for x in v["tgot"]], expected),
+            dict(property=prop, replay_family="teval", kind=m["kind"], perms=perms, case=dict(id="replay", tfacts=r["tfacts"], now=r["now"], rules=r["rules"], overlap=r.get("overlap", False)),
+                 program_text=r["text"], observed=v, expected=ms2[0]["expected"]))
     if ctx.notes.get("unreproduced") and not ctx.violations:
         raise InfraError("temporal evaluation mismatch did not reproduce: %s" % ctx.notes["unreproduced"][:1])
     ctx.notes.setdefault("sources", {})[tag] = dict(cases=len(results), rejected=len(val["mismatches"]))
@@ -80,7 +86,7 @@ def replay(ctx, obj):
     ctx.build_vh()
     cp = os.path.join(ctx.work, "replay.ndjson")
     write_ndjson(cp, [obj["case"]])
-    run_cases(ctx, cp, "replay", 10)
+    run_cases(ctx, cp, "replay", 10, perms=obj.get("perms", 0), prop=ctx.prop)
     ctx.nontrivial.update(["r1", "r2"])
     ctx.add_sample(obj.get("program_text", ""))
     return ctx.finish("model_checking", "replay of one temporal program")
